@@ -529,7 +529,7 @@ def run(ctx):
     for name in LABEL_ORDER:
         a, b, jl, js = table[name]
         case = {"label": name}
-        ctx.case(["label", name], name not in ("H", "V"), case)
+        ctx.case(["label", name], name not in ("H", "V"), None)
         th, phv = POLARIZATION_MAPPING[name]
         if sp.simplify(th - a * sp.pi / 2) != 0 or sp.simplify(phv - b * sp.pi / 2) != 0:
             ctx.fail("label-table", "POLARIZATION_MAPPING differs from the model's table (units of pi/2)", case, [a, b], [str(th), str(phv)])
@@ -555,6 +555,13 @@ def run(ctx):
 
     mmax = 4
     nmax = 3 if ctx.quick() else 4
+    sampled = set()
+
+    def one_sample(stream, ok, d):
+        if ok and stream not in sampled:
+            sampled.add(stream)
+            return d
+        return None
     reported = set()
 
     def report(stream, fails, node, spec, extra_case=None, shrinker=None):
@@ -593,7 +600,7 @@ def run(ctx):
         fails = check_matrix(t, out)
         lv = t.leaves()
         nontriv = any(l.pol and l.kind != "PBS" for l in lv) and any(not l.pol for l in lv) and len(lv) >= 3
-        ctx.case(["matrix", sx(t.model())], nontriv, {"stream": "matrix", "circuit": t.source()[:400]})
+        ctx.case(["matrix", sx(t.model())], nontriv, one_sample("matrix", nontriv, {"stream": "matrix", "circuit": t.source()[:400]}))
         ctx.count("matrix.m%d" % t.k)
         if t.has_empty():
             ctx.count("matrix.with-empty-subcircuit")
@@ -617,8 +624,9 @@ def run(ctx):
     outs = ctx.model.run([(F_CONVERT, model_input(rows)) for _, _, rows, _ in convs])
     for (spec, state, rows, kind), out in zip(convs, outs):
         fails = check_convert(state, out)
-        ctx.case(["convert", sx(model_input(rows))], classes(rows) >= 2 or any(p.elliptical for row in rows for p in row),
-                 {"stream": "convert", "state": spec.string()})
+        nt = classes(rows) >= 2 or any(p.elliptical for row in rows for p in row)
+        ctx.case(["convert", sx(model_input(rows))], nt,
+                 one_sample("convert", nt and out[0] == 0, {"stream": "convert", "state": spec.string(), "spatial_input": out[1]}))
         ctx.count("convert." + kind)
         ctx.count("convert.code%d" % out[0])
         if fails:
@@ -657,7 +665,8 @@ def run(ctx):
             U = np.array(build(tree.source()).compute_unitary(use_polarization=True))
             nontriv = not np.allclose(U, U.T, atol=1e-9)
         ctx.case(["probs", sx(tree.model()), sx(model_input(rows))], nontriv,
-                 {"stream": "probs", "circuit": tree.source()[:300], "state": spec.string()})
+                 one_sample("probs", nontriv and spec.n() >= 2, {"stream": "probs", "circuit": tree.source()[:300], "state": spec.string(),
+                            "distribution": {str(list(e[0])): round(un_p2(e[1]), 9) for e in out[1] if un_p2(e[1]) > 1e-9} if out[0] == 0 else None}))
         ctx.count("probs." + kind)
         ctx.count("probs.status%d" % out[0])
         ctx.count("probs.n%d" % spec.n())
